@@ -424,7 +424,7 @@ func (d *Driver) judgeC12() {
 					if h.Deadline < 0 || h.Deadline > 100*time.Millisecond {
 						d.h.violate("C12", "health-context-deadline", fmt.Sprintf("i%d.%d health check at %v got a context deadline of %v (must expire within 100ms)", in.idx, o.gen, h.T, h.Deadline), h.T, h.Step)
 					}
-					if h.Result == 'h' || h.Result == 'S' {
+					if h.Result == 'h' || h.Result == 'S' || h.Result == 'B' {
 						count = 0
 					} else {
 						count++
@@ -453,7 +453,11 @@ func (d *Driver) judgeC12() {
 				due = nil
 				count = 0
 			}
-			if due != nil && d.endAt-due.T > 200*time.Millisecond && !d.stopInvokedBefore(in.idx, o.gen, due.T+200*time.Millisecond) {
+			grace := 200 * time.Millisecond
+			if due != nil && due.Result == 'b' {
+				grace += in.cfg.HealthBlock // the verdict itself comes that much later
+			}
+			if due != nil && d.endAt-due.T > grace && !d.stopInvokedBefore(in.idx, o.gen, due.T+grace) {
 				d.h.violate("C12", fmt.Sprintf("no-demotion-at-threshold/m=%d", m), fmt.Sprintf("i%d.%d: threshold reached at %v, never demoted", in.idx, o.gen, due.T), due.T, due.Step)
 			}
 		}
@@ -463,8 +467,14 @@ func (d *Driver) judgeC12() {
 	if d.plan.Tail > 0 {
 		var lastBad time.Duration = -1
 		for _, h := range d.h.Health {
-			if h.Result != 'h' && h.Result != 'S' && h.T > lastBad {
+			if h.Result != 'h' && h.Result != 'S' && h.Result != 'B' && h.T > lastBad {
 				lastBad = h.T
+			}
+			if h.Result == 'b' || h.Result == 'B' {
+				// a probe that blocks holds up the refreshes as well: the record may lapse meanwhile
+				if in := d.inst(h.Inst); in != nil && h.T+in.cfg.HealthBlock > lastBad {
+					lastBad = h.T + in.cfg.HealthBlock
+				}
 			}
 		}
 		// judged only when the scripts have been healthy for longer than a vacancy can last
